@@ -302,6 +302,8 @@ var c15fakes = []c15fake{
 	{detectorspb.DetectorType_Slack, []string{"errkw"}, "errkw", 0, "errkw"},
 	{detectorspb.DetectorType_Twilio, nil, "t-", 5, ""},
 	{detectorspb.DetectorType_Square, []string{"SK_TEST"}, "sk_test_", 8, ""},
+	{detectorspb.DetectorType_Mailgun, []string{"needkw"}, "mg-", 8, ""},
+	{detectorspb.DetectorType_Heroku, []string{"hk1", "HK2"}, "hr-", 6, ""},
 }
 
 func c15scanner(arg string) *pgdump.SecretScanner {
